@@ -336,6 +336,17 @@ def always_returns_value(stmts: list[ast.stmt]) -> bool:
         return (always_returns_value(last.finalbody) if last.finalbody else False) or (ok_body and all(always_returns_value(h.body) for h in last.handlers))
     if isinstance(last, (ast.With, ast.AsyncWith)):
         return always_returns_value(last.body)
+    if isinstance(last, ast.Match):
+        # exhaustive only with a case that cannot fail (a wildcard or a bare capture, possibly the alternative of an or-pattern, no guard); every case returns
+        return any(c.guard is None and _irrefutable(c.pattern) for c in last.cases) and all(always_returns_value(c.body) for c in last.cases)
+    return False
+
+
+def _irrefutable(p: ast.AST) -> bool:
+    if isinstance(p, ast.MatchAs):
+        return p.pattern is None or _irrefutable(p.pattern)
+    if isinstance(p, ast.MatchOr):
+        return any(_irrefutable(x) for x in p.patterns)
     return False
 
 
@@ -672,11 +683,24 @@ def sort_key_sites(repo: Repo, mods: Iterable[Module]) -> list[tuple[Module, ast
     out = []
     for m in mods:
         for c in ast.walk(m.tree):
-            if isinstance(c, ast.Call) and isinstance(c.func, ast.Name) and c.func.id in ("sorted", "min", "max"):
-                for k in c.keywords:
+            if sort_callee(m, c) is not None:
+                for k in c.keywords:  # type: ignore[attr-defined]
                     if k.arg == "key":
                         out.append((m, c, key_chain(repo, m, k.value, c)))
     return out
+
+
+def sort_callee(mod: Module, c: ast.AST) -> Optional[str]:
+    """'sorted' / 'min' / 'max' when `c` is a call that fixes the key= of that builtin: the call of the builtin itself, or functools.partial(<builtin>, ..., key=K) -
+    the callable so made orders whatever it is called with by K, wherever it is bound (a local, a class attribute, a staticmethod)"""
+    if not isinstance(c, ast.Call):
+        return None
+    f = c.func
+    if isinstance(f, ast.Name) and f.id in ("sorted", "min", "max"):
+        return f.id
+    if c.args and isinstance(c.args[0], ast.Name) and c.args[0].id in ("sorted", "min", "max") and _is_functools_partial(mod, f):
+        return c.args[0].id
+    return None
 
 
 def term_key_functions(repo: Repo, ev: Module, ag: Module, sites) -> list[tuple[Module, ast.FunctionDef, str, list[ast.Return]]]:
@@ -705,8 +729,79 @@ def term_key_functions(repo: Repo, ev: Module, ag: Module, sites) -> list[tuple[
             if by_role:
                 raise AnalysisError("%s: branch for Literal not found" % kfn.name)
             continue
-        out[id(kfn)] = (km, kfn, subject, sorted(rets, key=lambda r: r.lineno))  # type: ignore[arg-type]
+        out[id(kfn)] = (km, kfn, subject, sorted(merge_returns(km, kfn, rets), key=lambda r: r.lineno))  # type: ignore[arg-type]
     return list(out.values())
+
+
+def block_value(stmts: list[ast.stmt]) -> Optional[ast.expr]:
+    """The one expression a block of statements returns, when the block is nothing but a decision which value to return: `return E` is E;
+    `if T: <block A> else: <block B>` and the guard clause `if T: <block A>` followed by <block B> are `A if T else B`; two tuples of the same length are
+    merged component by component (`(a, x) if T else (a, y)` is `(a, x if T else y)`: a component that is the same on both sides stays as it is).  Assignments
+    to plain local names between the tests are passed over (the readers look the single definition of a local up in the function).  None for anything else"""
+    stmts = [st for st in stmts if not (isinstance(st, ast.Assign) and all(isinstance(t, ast.Name) for t in st.targets))
+             and not (isinstance(st, ast.AnnAssign) and isinstance(st.target, ast.Name))]
+    if not stmts:
+        return None
+    first = stmts[0]
+    if isinstance(first, ast.Return):
+        return first.value
+    if isinstance(first, ast.If):
+        a = block_value(first.body)
+        b = block_value(first.orelse) if first.orelse else block_value(stmts[1:]) if leaves(first.body) else None
+        if a is None or b is None:
+            return None
+        return _choice(first.test, a, b)
+    return None
+
+
+def _choice(test: ast.expr, a: ast.expr, b: ast.expr) -> ast.expr:
+    if norm(a) == norm(b):
+        return a
+    if isinstance(a, ast.Tuple) and isinstance(b, ast.Tuple) and len(a.elts) == len(b.elts) and not any(isinstance(e, ast.Starred) for e in a.elts + b.elts):
+        return ast.copy_location(ast.Tuple(elts=[_choice(test, x, y) for x, y in zip(a.elts, b.elts)], ctx=ast.Load()), a)
+    return ast.copy_location(ast.IfExp(test=test, body=a, orelse=b), a)
+
+
+def merge_returns(mod: Module, fn: ast.AST, rets: list[ast.Return]) -> list[ast.Return]:
+    """`rets` (returns of fn that share a fact, e.g. all reached only with the parameter known to be a Literal) with those that are the outcomes of one decision
+    replaced by a single return of the merged value (block_value): `if P: return (3, False, '', v)` / `return (3, True, str(v.datatype), v)` is read as
+    `return (3, False if P else True, '' if P else str(v.datatype), v)` - the key as a function of the element, however the cases are laid out.  A tail of a
+    block is merged only if every return in it is one of `rets`; returns that are not part of such a tail are kept as they are"""
+    inset = {id(r) for r in rets}
+
+    def wholly(node: ast.AST) -> bool:
+        return all(id(r) in inset for r in ast.walk(node) if isinstance(r, ast.Return))
+
+    tops: dict[int, ast.AST] = {}
+    for r in rets:
+        top: ast.AST = r
+        for p in mod.parents(r):
+            if p is fn or not (isinstance(p, ast.If) and wholly(p)):
+                break
+            top = p
+        tops[id(top)] = top
+    out: list[ast.Return] = []
+    done: set[int] = set()
+    for top in tops.values():
+        if id(top) in done:
+            continue
+        parent = next(iter(mod.parents(top)), None)
+        blk = next((b for f_ in ("body", "orelse", "finalbody") for b in [getattr(parent, f_, None)] if isinstance(b, list) and top in b), None)
+        tail = blk[blk.index(top):] if blk is not None else [top]
+        # the tail starts at the first of the top nodes of this block
+        firsts = [t for t in (blk or []) if id(t) in tops]
+        if firsts:
+            tail = blk[blk.index(firsts[0]):]  # type: ignore[index]
+        val = block_value(tail) if all(wholly(st) for st in tail) and len([r for st in tail for r in ast.walk(st) if isinstance(r, ast.Return)]) > 1 else None
+        members = [t for t in tail if id(t) in tops] if val is not None else [top]
+        for t in members:
+            done.add(id(t))
+        if val is not None:
+            first_ret = min((r for st in tail for r in ast.walk(st) if isinstance(r, ast.Return)), key=lambda r: (r.lineno, r.col_offset))
+            out.append(ast.copy_location(ast.Return(value=val), first_ret))
+        else:
+            out.extend(r for r in ast.walk(top) if isinstance(r, ast.Return))
+    return out
 
 
 def subst_locals(fn: ast.AST, e: ast.AST, params: set[str], depth: int = 0) -> ast.AST:
@@ -1018,3 +1113,29 @@ def instance_factory(mod: Module, fn: ast.AST, e: ast.AST, is_cls, depth: int = 
         vals = local_values(fn, e.id)
         return bool(vals) and all(instance_factory(mod, fn, v, is_cls, depth + 1) for v in vals)
     return False
+
+
+def iterated_sources(fn: ast.AST, it: ast.AST, params: set[str], depth: int = 0) -> set[str]:
+    """the expressions (normalised text) whose elements a `for` over `it` visits, in order and each once: `it` itself; X for `X or <empty display>` (an absent /
+    empty X gives no round either way), for `X if X else <empty>`, for list(X) / tuple(X) / iter(X), and for a local bound once to one of these"""
+    out = {norm(it)}
+    if depth > 3:
+        return out
+
+    def empty(e: ast.AST) -> bool:
+        return (isinstance(e, (ast.Tuple, ast.List, ast.Set)) and not e.elts) or (isinstance(e, ast.Dict) and not e.keys) or (
+            isinstance(e, ast.Call) and isinstance(e.func, ast.Name) and e.func.id in ("tuple", "list", "set", "frozenset") and not e.args and not e.keywords) or (
+            isinstance(e, ast.Constant) and e.value in ("", b""))
+
+    if isinstance(it, ast.BoolOp) and isinstance(it.op, ast.Or) and len(it.values) == 2 and empty(it.values[1]):
+        out |= iterated_sources(fn, it.values[0], params, depth + 1)
+    elif isinstance(it, ast.IfExp) and empty(it.orelse) and norm(it.test) == norm(it.body):
+        out |= iterated_sources(fn, it.body, params, depth + 1)
+    elif isinstance(it, ast.Call) and isinstance(it.func, ast.Name) and it.func.id in ("list", "tuple", "iter") and len(it.args) == 1 and not it.keywords:
+        out |= iterated_sources(fn, it.args[0], params, depth + 1)
+    elif isinstance(it, ast.Name) and it.id not in params:
+        vals = local_values(fn, it.id)
+        stores = [n for n in ast.walk(fn) if isinstance(n, ast.Name) and n.id == it.id and isinstance(n.ctx, (ast.Store, ast.Del))]
+        if len(vals) == 1 and len(stores) == 1:
+            out |= iterated_sources(fn, vals[0], params, depth + 1)
+    return out
